@@ -8,6 +8,11 @@ Tie     : extracted facts (INVALID_MODULE_CHARS ranges, validation before __impo
           loads -> load, loads guarded by try/except in _marshaled_dispatch with Fault(-32700))
           + differential correspondence of the decoding paths against the driver component `rpcload`
           (result / exception class, sequence of __import__ calls made by the translator, parsed|parseError).
+          + every public entry point constructed with a Config (harness/jcentries.py: dispatcher, CGI handler, TCP / pooled /
+          Unix-socket servers, keyword and positional construction; ServerProxy / Server over loop and real transports;
+          MultiCall; jsonrpc.load/loads/dump/dumps) built with a non-default configuration, flag on and off (`_entry_points`);
+          extracted facts `configSinks` (each constructor keeps the configuration it is given, directly or through the base
+          constructor it forwards it to) and `configPassing`.
 Monitor : from the property statement.  Observation of one decoding (`observe`): a process-wide audit hook
           collecting `import` events raised while jsonclass.load is on the stack, a wrapper of builtins.__import__
           recording the *dynamic* imports made by jsonrpclib.jsonclass (`__import__(name, …)` calls — a static
@@ -34,6 +39,7 @@ import tempfile
 
 import gen
 import impl
+import jcentries
 import jcenv
 import pyval
 
@@ -47,6 +53,7 @@ REQUIRED_THEOREMS = [
     "C08_malformed_at_depth", "C08_imports_validated", "C08_server_32700", "C08_server_32700_malformed_json",
     "C08_server_rejects_bad_descriptor", "C08_gen_moduleCharClass", "C08_gen_allowed", "C08_gen_validationPrecedesImport",
     "C08_gen_useJsonclassGates", "C08_gen_loadsCallsLoad", "C08_gen_loadsGuarded", "C08_gen_configCallSites",
+    "C08_gen_configSinks", "C08_gen_configPassing",
 ]
 
 ALPHABET = ["a", "Z", "0", "_", ".", "-", " ", "\n", "é", "ａ"]
@@ -227,10 +234,11 @@ def allowed_imports(payload):
     return out
 
 
-def check_imports(ctx, case, o, payload, flag, where):
+def check_imports(ctx, case, o, payload, flag, where, new_modules=True):
     allowed = allowed_imports(payload) if flag else set()
-    # with no valid descriptor in the payload (or with the flag off) no module at all may get loaded
-    bad = [m for m in o.calls + o.events + ([] if allowed else o.new_modules) if m not in allowed]
+    # with no valid descriptor in the payload (or with the flag off) no module at all may get loaded (over a real socket
+    # the standard library loads codecs on first use: there only the translator's own imports and the canary count)
+    bad = [m for m in o.calls + o.events + ([] if allowed or not new_modules else o.new_modules) if m not in allowed]
     if bad:
         ctx.violate(case, "%s: module(s) %r imported although no descriptor with a valid class name names them "
                           "(use_jsonclass=%s; __import__ calls %r, audit events %r)" % (where, bad, flag, o.calls, o.events),
@@ -471,7 +479,12 @@ def parse_model(mo):
 
 
 def run(ctx):
-    ctx.rule = ("payloads = descriptors (existing / missing / canary modules, names mutated with one bad character or look-alike, "
+    ctx.rule = ("every public entry point that is constructed with a Config (SimpleJSONRPCDispatcher, CGIJSONRPCRequestHandler, "
+                "SimpleJSONRPCServer, PooledJSONRPCServer, both over TCP and over a Unix socket, keyword and positional construction; "
+                "ServerProxy / Server over a loop transport and over the package's own Transport / UnixTransport; MultiCall; "
+                "jsonrpc.dump/dumps/load/loads) built with a non-default Config (use_jsonclass on and off, custom names and content "
+                "type) x descriptor payloads x 2.0-form and 1.0-form requests; "
+                "payloads = descriptors (existing / missing / canary modules, names mutated with one bad character or look-alike, "
                 "random Unicode, empty, every malformed shape: each JSON type, lists of length 0-3) at depth 0-3 of lists, dicts and "
                 "attributes of valid descriptors, with siblings; decoded directly (jsonrpclib.loads), as a reply through a real "
                 "ServerProxy (LoopTransport) and as a request body through _marshaled_dispatch; use_jsonclass on and off; plus the "
@@ -493,6 +506,7 @@ def run(ctx):
                 env.uninstall()
         _dump_gate(ctx)
         _rpc_gates(ctx)
+        _entry_points(ctx)
         _outside_domain(ctx)
     finally:
         canary_teardown()
@@ -1051,6 +1065,274 @@ def _rpc_gates(ctx, only=None):
                                       kind="gate/c=%s/s=%s/%s/%s" % ("on" if cflag else "off", "on" if sflag else "off", mode, outc))
 
 
+# ---- every public entry point that is constructed with a configuration ------------------------------------------------
+
+ENTRY_REQUESTS = ["echo", "echo-1.0-form", "echo-batch", "bean", "bean-1.0-form"]
+
+
+def _entry_cfg(flag, variant):
+    """A configuration that differs from the default one in more than the flag."""
+    kw = {"use_jsonclass": flag}
+    if variant == 1:
+        kw.update(serialize_method="_to_json", ignore_attribute="_skip", content_type="application/json")
+    elif variant == 2:
+        kw.update(version=1.0, user_agent="jrv-agent")
+    return impl.jsonrpclib.config.Config(**kw)
+
+
+def _entry_payloads(rng):
+    vals = _gate_values()
+    out = [("valid-canary", {"__jsonclass__": [CANARY + ".Boom", []], "x": 1}),
+           ("valid-canary-nested", {"deep": [{"__jsonclass__": [CANARY + ".Boom", {"a": 1}]}]}),
+           ("valid-existing", vals["jcdict"]),
+           ("invalid-name", {"__jsonclass__": ["bad name!", []]}),
+           ("invalid-mutated", {"__jsonclass__": [mutate_name(rng, CANARY + ".Boom"), []], "a": 1}),
+           ("invalid-empty", {"k": [{"__jsonclass__": ["", {}]}]}),
+           ("malformed", {"__jsonclass__": 42}),
+           ("malformed-short", [{"__jsonclass__": [CANARY + ".Boom"]}])]
+    return out
+
+
+def entry_server_exchange(kind, flag, variant, form, payload):
+    """One request through the public path of a server-side entry point built with a non-default configuration.
+    -> (observation, reply document | None, what the registered methods received)"""
+    cfg = _entry_cfg(flag, variant)
+    received = []
+
+    def echo(*args, **kwargs):
+        received.append([list(args), kwargs])
+        return list(args)
+
+    def bean():
+        received.append([[], {}])
+        return _gate_values()["bean"]
+
+    meth = "bean" if form.startswith("bean") else "echo"
+    req = {"method": meth, "id": 7, "params": [] if meth == "bean" else [payload]}
+    if not form.endswith("1.0-form"):
+        req["jsonrpc"] = "2.0"
+    if form == "echo-batch":
+        req = [{"jsonrpc": "2.0", "method": "echo", "id": 1, "params": [1]}, req]
+    body = json.dumps(req)
+    entry = jcentries.ServerEntry(kind, cfg, {"echo": echo, "bean": bean})
+    try:
+        o = observe(entry.send, body, _payload=req)
+    finally:
+        entry.close()
+    reply = None
+    if o.kind == "ok" and o.value:
+        try:
+            reply = json.loads(o.value)
+        except ValueError:
+            reply = None
+    return o, req, reply, received
+
+
+def entry_server_verdicts(kind, flag, form, payload, o, req, reply, received):
+    """What the statement requires of the exchange: [(key, detail)]."""
+    hits = []
+    where = "entry:" + kind
+    if o.kind == "err":
+        return [("entry-raises", "%s raised %s: %s" % (where, type(o.value).__name__, o.value))]
+    docs = reply if isinstance(reply, list) else [reply]
+    last = docs[-1] if docs and isinstance(docs[-1], dict) else {}
+    is_32700 = any(isinstance(d, dict) and isinstance(d.get("error"), dict) and d["error"].get("code") == -32700 for d in docs)
+    if form.startswith("bean"):
+        # a result that is not JSON: translated only when the flag is on — whatever the form of the request
+        text = o.value or ""
+        if not flag and "__jsonclass__" in text:
+            hits.append(("off-server-sends-translated:" + kind, "%s built with use_jsonclass=False answered the %s request %s"
+                         % (where, form, text[:300])))
+        if flag and not (isinstance(last.get("result"), dict) and "__jsonclass__" in last["result"]):
+            hits.append(("on-server-not-translated:" + kind, "%s built with use_jsonclass=True answered the %s request %s"
+                         % (where, form, text[:300])))
+        return hits
+    echoes = [r for r in received if r[0] and r[0] != [1]]
+    if not flag:
+        # nothing is interpreted: the method receives the JSON parameter, the reply carries it back verbatim
+        if len(echoes) != 1 or not strict_equal(echoes[0], [[payload], {}]):
+            hits.append(("off-not-plain-json:" + kind, "%s built with use_jsonclass=False: the method received %r instead of the "
+                         "JSON parameter %r (reply %s)" % (where, echoes, payload, str(o.value)[:300])))
+        elif not strict_equal(last.get("result"), [payload]):
+            hits.append(("off-reply-not-verbatim:" + kind, "%s built with use_jsonclass=False: the reply %s does not carry the "
+                         "parameter %r back verbatim" % (where, str(o.value)[:300], payload)))
+    else:
+        d = _single_bad(req)
+        if d is not None and (not is_32700 or received):
+            hits.append(("bad-descriptor-accepted:" + kind, "%s built with use_jsonclass=True: the body's only descriptor %r is %s "
+                         "but the reply is %s and the methods received %r"
+                         % (where, d["__jsonclass__"], shape(d), str(o.value)[:300], received)))
+    return hits
+
+
+def entry_client_exchange(kind, flag, variant, mode, rkind):
+    """One call through a client-side entry point built with a non-default configuration; the peer answers the JSON
+    value `rkind` of _gate_values() verbatim.  -> (observation, bodies sent, results, reply texts)"""
+    J = impl.jsonrpclib.jsonrpc
+    cfg = _entry_cfg(flag, variant)
+    vals = _gate_values()
+    replies = []
+
+    def peer(body):
+        docs = json.loads(body)
+        out = []
+        for doc in (docs if isinstance(docs, list) else [docs]):
+            if doc.get("id") is None:
+                continue
+            rep = {"id": doc["id"], "result": vals[rkind]}
+            if "jsonrpc" in doc:
+                rep["jsonrpc"] = "2.0"
+            else:
+                rep["error"] = None
+            out.append(rep)
+        text = "" if not out else json.dumps(out if isinstance(docs, list) else out[0])
+        replies.append(text)
+        return text
+
+    results = []
+    client = jcentries.Client(kind, cfg, peer)
+    try:
+        def go():
+            if mode == "call":
+                results.append(client.proxy.m(vals["jcdict"]))
+            elif mode == "keyword":
+                results.append(client.proxy.m(x=vals["canary"]))
+            elif mode == "notify":
+                client.proxy._notify.m(vals["canary"])
+            else:
+                mc = J.MultiCall(client.proxy, config=cfg)
+                mc.m(vals["canary"])
+                mc.m(x=vals["jcdict"])
+                results.extend(list(mc()))
+
+        o = observe(go, _payload=[vals["jcdict"], vals["canary"]])
+    finally:
+        client.close()
+    return o, list(client.sent), results, replies
+
+
+def entry_client_verdicts(kind, flag, mode, rkind, o, sent, results, replies):
+    hits = []
+    vals = _gate_values()
+    where = "entry:" + kind
+    if not flag:
+        if o.kind == "err":
+            hits.append(("off-client-raises:" + kind, "%s built with use_jsonclass=False: the %s call raised %s: %s"
+                         % (where, mode, type(o.value).__name__, o.value)))
+        if o.canary or o.calls or o.events:
+            hits.append(("off-client-imports:" + kind, "%s built with use_jsonclass=False: imports %r / %r, canary %r"
+                         % (where, o.calls, o.events, o.canary)))
+        for r in results:
+            if not strict_equal(r, vals[rkind]):
+                hits.append(("off-not-plain-json:" + kind, "%s built with use_jsonclass=False: the %s call returned %r instead of the "
+                             "JSON result %r" % (where, mode, r, vals[rkind])))
+        for body in sent:
+            docs = json.loads(body)
+            for doc in (docs if isinstance(docs, list) else [docs]):
+                p = doc.get("params")
+                got = p.get("x") if isinstance(p, dict) else (p[0] if p else None)
+                if not any(strict_equal(got, vals[k]) for k in ("jcdict", "canary")):
+                    hits.append(("off-client-param-not-verbatim:" + kind, "%s sent %r" % (where, got)))
+    elif rkind == "canary" and mode != "notify":
+        # the flag is on: the valid descriptor of the reply is acted upon (the canary class is constructed)
+        if "constructed" not in o.canary:
+            hits.append(("on-client-not-translated:" + kind, "%s built with use_jsonclass=True: the %s call gave %s %r and the "
+                         "canary saw %r" % (where, mode, o.kind, o.value, o.canary)))
+    return hits
+
+
+def _entry_points(ctx, only=None):
+    """Every constructor of the package that takes a `config`, with a configuration that is not the default one: the
+    flag it carries decides, on the public path of the object built."""
+    rng = ctx.rng
+    payloads = _entry_payloads(rng)
+    for kind in jcentries.SERVER_ENTRIES:
+        for flag in (False, True):
+            n = 0
+            for form in ENTRY_REQUESTS:
+                for pname, payload in (payloads if form.startswith("echo") else [("-", None)]):
+                    if form != "echo" and pname not in ("-", "valid-canary", "invalid-name"):
+                        continue
+                    if kind in jcentries.SOCKET and form == "echo" and pname not in ("valid-canary", "valid-existing", "invalid-name",
+                                                                                   "malformed") and not ctx.thorough:
+                        continue
+                    variant = n % 3
+                    n += 1
+                    if form.endswith("1.0-form") and variant == 2:
+                        variant = 1  # a 1.0-form request on a 2.0 server: answered through a copy of the configuration
+                    o, req, reply, received = entry_server_exchange(kind, flag, variant, form, payload)
+                    case = {"side": "entry-server", "entry": kind, "flag": flag, "variant": variant, "form": form,
+                            "payload": payload, "kind": pname, "path": form}
+                    check_imports(ctx, case, o, req, flag, "entry:" + kind, new_modules=kind in jcentries.IN_PROCESS)
+                    for key, detail in entry_server_verdicts(kind, flag, form, payload, o, req, reply, received)[:2]:
+                        ctx.violate(case, detail, key=key)
+                    outc = "ok" if o.kind == "ok" else type(o.value).__name__
+                    ctx.count(nontrivial_key=("entry", kind, flag, form, pname, outc),
+                              kind="entry/%s/%s/%s" % (kind, "on" if flag else "off", form))
+    for kind in jcentries.CLIENT_ENTRIES:
+        for flag in (False, True):
+            n = 0
+            for mode in ("call", "keyword", "notify", "multicall"):
+                for rkind in ("jcdict", "canary"):
+                    variant = n % 3
+                    n += 1
+                    o, sent, results, replies = entry_client_exchange(kind, flag, variant, mode, rkind)
+                    case = {"side": "entry-client", "entry": kind, "flag": flag, "variant": variant, "mode": mode, "rkind": rkind,
+                            "kind": "entry-client", "path": mode}
+                    for key, detail in entry_client_verdicts(kind, flag, mode, rkind, o, sent, results, replies)[:2]:
+                        ctx.violate(case, detail, key=key)
+                    outc = "ok" if o.kind == "ok" else type(o.value).__name__
+                    ctx.count(nontrivial_key=("entry", kind, flag, mode, rkind, outc),
+                              kind="entry/%s/%s/%s" % (kind, "on" if flag else "off", mode))
+    _entry_functions_only(ctx)
+
+
+def _entry_functions_only(ctx):
+    """jsonrpc.load / loads / dump / dumps called directly with a non-default configuration, positionally and by keyword."""
+    J = impl.jsonrpclib.jsonrpc
+    vals = _gate_values()
+    for flag in (False, True):
+        for variant in (0, 1, 2):
+            cfg = _entry_cfg(flag, variant)
+            doc = {"jsonrpc": "2.0", "id": 1, "result": [vals["canary"], vals["jcdict"]]}
+            for fname, fn, arg in (("load", J.load, doc), ("loads", J.loads, json.dumps(doc))):
+                for how in ("positional", "keyword"):
+                    o = observe(fn, copy.deepcopy(arg), cfg, _payload=doc) if how == "positional" else \
+                        observe(fn, copy.deepcopy(arg), config=cfg, _payload=doc)
+                    case = {"side": "entry-function", "entry": fname, "flag": flag, "variant": variant, "how": how,
+                            "kind": "entry-function", "path": fname}
+                    if not flag and not (o.kind == "ok" and strict_equal(o.value, doc) and not o.canary and not o.calls):
+                        ctx.violate(case, "jsonrpc.%s(…, config with use_jsonclass=False) gave %s %r, imports %r, canary %r"
+                                    % (fname, o.kind, o.value, o.calls, o.canary), key="off-not-plain-json:" + fname)
+                    if flag and "constructed" not in o.canary:
+                        ctx.violate(case, "jsonrpc.%s(…, config with use_jsonclass=True) did not act on the valid descriptor: %s %r"
+                                    % (fname, o.kind, o.value), key="on-not-translated:" + fname)
+                    ctx.count(nontrivial_key=("entry", fname, flag, how, o.kind), kind="entry/%s/%s" % (fname, "on" if flag else "off"))
+            for fname in ("dump", "dumps"):
+                for how in ("positional", "keyword"):
+                    params = [vals["bean"], vals["jcdict"]]
+                    if fname == "dump":
+                        k, d = impl.outcome(J.dump, params, "m", 5, None, None, None, cfg) if how == "positional" else \
+                            impl.outcome(J.dump, params, "m", rpcid=5, config=cfg)
+                        got = d.get("params") if k == "ok" else None
+                        translated = k == "ok" and isinstance(got[0], dict)
+                        verbatim = k == "ok" and got is params
+                    else:
+                        k, d = impl.outcome(J.dumps, params, "m", None, None, 5, None, None, cfg) if how == "positional" else \
+                            impl.outcome(J.dumps, params, "m", rpcid=5, config=cfg)
+                        translated = k == "ok" and "__jsonclass__\": [\"" + GATE_MOD in d
+                        verbatim = k == "err" and type(d).__name__ == "TypeError"  # a bean is not JSON: nothing translates it
+                    case = {"side": "entry-function", "entry": fname, "flag": flag, "variant": variant, "how": how,
+                            "kind": "entry-function", "path": fname}
+                    if not flag and not verbatim:
+                        ctx.violate(case, "jsonrpc.%s(…, config with use_jsonclass=False) translated its parameters: %s %r"
+                                    % (fname, k, d), key="off-dump-not-verbatim:" + fname)
+                    if flag and not translated:
+                        ctx.violate(case, "jsonrpc.%s(…, config with use_jsonclass=True) did not translate the object: %s %r"
+                                    % (fname, k, d), key="on-dump-not-translated:" + fname)
+                    ctx.count(nontrivial_key=("entry", fname, flag, how, k), kind="entry/%s/%s" % (fname, "on" if flag else "off"))
+
+
 # ---- replay -------------------------------------------------------------------------------------------------------
 
 def replay(payload):
@@ -1091,6 +1373,54 @@ def replay(payload):
             if not hits:
                 print("no violation")
             return 1 if hits else 0
+        elif side == "entry-server":
+            print("detail recorded by the check:", payload.get("detail"))
+            o, req, reply, received = entry_server_exchange(case["entry"], flag, case["variant"], case["form"], case["payload"])
+            print("entry point %s built with Config(use_jsonclass=%s, variant %d), %s request\nbody: %s\nreply: %s\nmethods received: %r"
+                  % (case["entry"], flag, case["variant"], case["form"], json.dumps(req), str(o.value)[:500], received))
+            print("imports by the translator:", o.calls, "canary:", o.canary or "untouched")
+            hits = entry_server_verdicts(case["entry"], flag, case["form"], case["payload"], o, req, reply, received)
+            allowed = allowed_imports(req) if flag else set()
+            if [m for m in o.calls + o.events if m not in allowed] or (o.canary and CANARY not in allowed):
+                hits.append(("import-not-allowed", "imports %r, canary %r" % (o.calls, o.canary)))
+            for key, detail in hits:
+                print("VIOLATION reproduced [%s]: %s" % (key, detail))
+            if not hits:
+                print("no violation")
+            return 1 if hits else 0
+        elif side == "entry-client":
+            print("detail recorded by the check:", payload.get("detail"))
+            o, sent, results, replies = entry_client_exchange(case["entry"], flag, case["variant"], case["mode"], case["rkind"])
+            print("sent:", sent, "\nreplies:", replies, "\nresults:", results, "\noutcome:", o.kind, repr(o.value)[:200],
+                  "canary:", o.canary or "untouched")
+            hits = entry_client_verdicts(case["entry"], flag, case["mode"], case["rkind"], o, sent, results, replies)
+            for key, detail in hits:
+                print("VIOLATION reproduced [%s]: %s" % (key, detail))
+            if not hits:
+                print("no violation")
+            return 1 if hits else 0
+        elif side == "entry-function":
+            print("detail recorded by the check:", payload.get("detail"))
+
+            class C2(object):
+                violations = []
+                thorough = False
+                rng = __import__("random").Random(1)
+
+                def violate(self, c, d, key=None):
+                    if c.get("side") == "entry-function":
+                        self.violations.append(d)
+
+                def count(self, **kw):
+                    pass
+
+            c2 = C2()
+            _entry_functions_only(c2)
+            for d in c2.violations:
+                print("VIOLATION reproduced:", d)
+            if not c2.violations:
+                print("no violation")
+            return 1 if c2.violations else 0
         elif side == "direct-shapes":
             doc = pyval.from_tree(pyval.parse(case["payload_enc"])) if case.get("payload_enc") else None
             if doc is None:
